@@ -338,7 +338,7 @@ def run(ctx):
                "_solve_diophantine: the three factoring subroutines are replaced by arbitrary ring elements (over-approximation); only the real tail is executed")
     ctx.trust("z3 5.1.0 (NIA)", "vf.symbit lifting (sat models replayed on Python ints)", "CrossHair 0.0.110 for the bounded contracts")
     ctx.rule = "one obligation per ring law / method contract; non-trivial = mentions symbolic coefficients"
-    ctx.pmap(_dispatch, items, timeout_each=600)
+    ctx.pmap(_dispatch, items, timeout_each=600 if ctx.tier == "quick" else 2400)
     if not ctx.only or "ch" in ctx.only:
         chrun.run_contracts(ctx, ["c16_rings.py"], timeout=120 if ctx.tier == "quick" else 600, only=None)
     ctx.extra["contract_bounds"] = {r["name"]: r.get("bounds") for r in ctx.records if r.get("bounds")}
